@@ -1197,9 +1197,8 @@ def run(ctx):
     results = run_corpus(n_reg, ctx.seed, ctx.tier)
     t_corpus = time.time() - t0
     report_corpus(ctx, results, "default")
-    if ctx.tier != "quick":
-        r2 = run_corpus(80, ctx.seed + 1, ctx.tier, overrides={"enable_double_precision": True}, own=True, deadline_s=150)
-        report_corpus(ctx, r2, "x64")
+    # (the registry carries a double-precision twin of every testcase, exported with enable_double_precision=True by
+    #  exports.export_tp, so no separate override run is needed)
     ctx.coverage["corpus_wall_s"] = round(t_corpus, 1)
     # ---- proved checker inside Coq on the converted exports
     models = [(r["key"], r["term"]) for r in results if r.get("term")]
